@@ -21,6 +21,7 @@ import (
 // with RewardEpoch.rewardAll — each epoch on the entries the previous one left — and compares.
 //
 //   RE-stake <genesis> <epochSec> <first> <k> <n> {addr start revoke weighted}*n                    | <result>
+//   RE-stake-w <StakeTimeUnitSec> <amount> <stakingTime>   | <stored WeightedAmount>   (one per entry of an RE-stake line)
 //   RE-sentinel <genesis> <epochSec> <first> <k> <n> {owner reg revoke}*n                           | <result>
 //   RE-pillar <genesis> <epochSec> <mpe> <first> <k> <nInfos> {name withdraw giveBlock giveDelegate}*
 //             k times: <totalWeight> <nStats> {name produced expected weight}* <nDelegs> {name nBackers {addr amount}*}*   | <result>
@@ -117,6 +118,12 @@ func (r *rnRun) epochLines(C types.Address, pre *rnPre, P, N *rnState, ack *nom.
 				fmt.Fprintf(&sb, " %s %d %d %s", addrName(si.StakeAddress), si.StartTime, si.RevokeTime, si.WeightedAmount)
 				if inside(si.StartTime) {
 					c.Hit("re-stake-entry-starts-inside-epoch")
+				}
+				// the stored weighted amount is what getWeightedStakeAmount gave when the stake was received
+				// (a cancelled entry keeps the weighted amount but its Amount is zeroed)
+				if si.RevokeTime == 0 && si.Amount.Sign() > 0 {
+					c.Emit("RE-stake-w %d %s %d | %s", constants.StakeTimeUnitSec, si.Amount, si.ExpirationTime-si.StartTime, si.WeightedAmount)
+					c.Hit("re-stake-weighted-amount")
 				}
 				if si.RevokeTime != 0 && inside(si.RevokeTime) {
 					c.Hit("re-stake-entry-revoked-inside-epoch")
